@@ -5,7 +5,7 @@
    differential of harness/props/c19.py.  Only property theorems here; proofs are in Struct/AliasProofs.v. *)
 From Coq Require Import ZArith String List Bool.
 Import ListNotations.
-From TP Require Import Base.PyVal Struct.Alias Struct.AliasProofs Gen.AliasSites.
+From TP Require Import Base.PyVal Struct.Alias Struct.AliasProofs Struct.AliasIntake Struct.AliasIntakeProofs Gen.AliasSites.
 
 (* the full statement: EVERY operation, whatever its summary *)
 Definition C19_statement : Prop :=
@@ -59,6 +59,54 @@ Proof.
   exact (proj2 witness_returns (H2 [MWrite 0 (lst [one; poke])] 3)).
 Qed.
 
+(* ------------------------------------------------------------------------------------------------
+   Intake: what an instance keeps of the value it is given (Struct/AliasIntake.v).  [retains] is the
+   executable model of typedpy's defensive-copy decisions -- Structure.__setattr__, Field.__set__,
+   ImmutableMixin._get_defensive_copy_if_needed and the wrappers' __init__ -- parametric in the isinstance
+   tables GENERATED from the source (Gen/AliasTables.v), for every owner kind, declared field type and shape
+   of the argument value (tuples / frozensets holding mutable objects included).  The harness compares it
+   with the implementation case by case; the theorems below say which tables are safe, for ALL types and
+   ALL values, and give a leaking value for every unsafe table entry. *)
+
+(* an ImmutableStructure whose Structure.__setattr__ exempts only atomic types shares nothing with its
+   constructor arguments / the deserialized document, whatever the field types and the values *)
+Theorem C19_immutable_structure_intake_safe : forall sv tb deser t v,
+    struct_gate_ok tb = true -> retains sv tb OwnImmStruct deser t v = false.
+Proof. exact immstruct_safe. Qed.
+
+(* ... and every other entry of that table leaks: a value of the exempted type through which the caller
+   still reaches an object stored in the immutable instance (tuple -> a tuple holding a list, ...) *)
+Theorem C19_immutable_structure_exemption_leaks : forall sv tb y,
+    atomic_ty y = false -> In y (t_setattr tb) ->
+    pyty_of (witness_of y) = (match y with YUnknownTy => YList | _ => y end) /\
+    retains sv tb OwnImmStruct false TAny (witness_of y) = true.
+Proof. exact immstruct_leaks_typed. Qed.
+
+(* a field declared immutable (ImmutableField mixin), at every nesting depth *)
+Theorem C19_immutable_field_intake_safe : forall sv tb deser t v,
+    sites_intake_ok sv = true -> field_gates_ok tb = true ->
+    retains sv tb OwnImmField deser t v = false.
+Proof. exact immfield_safe. Qed.
+
+Theorem C19_immutable_field_exemption_leaks : forall sv tb y,
+    atomic_ty y = false -> In y (t_set tb) ->
+    retains sv tb OwnImmField false TAny (witness_of y) = true.
+Proof. exact immfield_leaks. Qed.
+
+(* Map fields are skipped by Field.__set__'s copy; unless _DictStruct.__init__ copies, an untyped ImmutableMap shares
+   the caller's values *)
+Theorem C19_immutable_map_leaks : forall sv tb deser,
+    t_map_custom tb = true -> t_dict_gate tb = false ->
+    retains sv tb OwnImmField deser (TMap None) (VDict [VList [VAtom]]) = true.
+Proof. exact immutable_map_leaks. Qed.
+
+(* a mutable owner: a field type with no untyped position at any depth is rebuilt level by level, so nothing of a
+   well-shaped argument is shared (induction over the declared type, nested through items / fields) *)
+Theorem C19_plain_typed_intake_safe : forall sv tb deser t v,
+    sites_intake_ok sv = true -> typed_inside t = true -> shape_ok deser t v = true ->
+    retains sv tb OwnPlain deser t v = false.
+Proof. exact plain_typed_safe. Qed.
+
 Print Assumptions C19_noninterference.
 Print Assumptions C19_client_mutations_invisible.
 Print Assumptions C19_witness_RetainsArg.
@@ -66,6 +114,13 @@ Print Assumptions C19_witness_ReturnsInternal.
 Print Assumptions C19_witness_WritesArg.
 Print Assumptions C19_witness_shallow_copy_of_references.
 Print Assumptions C19_refuted.
+
+Print Assumptions C19_immutable_structure_intake_safe.
+Print Assumptions C19_immutable_structure_exemption_leaks.
+Print Assumptions C19_immutable_field_intake_safe.
+Print Assumptions C19_immutable_field_exemption_leaks.
+Print Assumptions C19_immutable_map_leaks.
+Print Assumptions C19_plain_typed_intake_safe.
 
 (* non-vacuity: a separated world, an operation with three copying steps (store an argument, return a
    one-level copy, return a deep copy) satisfies every hypothesis; the client then overwrites its
@@ -79,3 +134,39 @@ Proof. exact nonvacuous. Qed.
 
 (* the sites of the CURRENT source tree the model regards as unsafe (evaluated by the harness each run) *)
 Definition C19_unsafe_sites_now := unsafe_sites alias_sites.
+
+(* non-vacuity of the intake theorems: a table set satisfying every hypothesis (what the library has once the two
+   open findings are fixed), a nested type and a value full of mutable objects under tuples; and the pinned tree's
+   tables with `tuple` added to Structure.__setattr__'s exemptions, on which the same value leaks *)
+Definition tables_ok : ctables :=
+  {| t_setattr := [YScalar; YImmStruct; YImmWrapper]; t_setattr_copies := true;
+     t_set := [YScalar; YImmStruct; YImmWrapper]; t_set_copies := true;
+     t_mixin := [YScalar; YTuple; YWrapper; YImmStruct]; t_mixin_copies := true;
+     t_list_gate := true; t_deque_gate := true; t_dict_gate := true; t_map_custom := true |}.
+Definition tables_tuple_exempt : ctables :=
+  {| t_setattr := [YWrapper; YImmStruct; YScalar; YTuple]; t_setattr_copies := true;
+     t_set := [YWrapper; YScalar; YImmStruct]; t_set_copies := true;
+     t_mixin := [YScalar; YTuple; YWrapper; YImmStruct]; t_mixin_copies := true;
+     t_list_gate := true; t_deque_gate := true; t_dict_gate := false; t_map_custom := true |}.
+Definition sites_ok_example : sites :=
+  {| s_liststruct_init := Copies; s_dictstruct_init := Copies; s_array_set_wraps := true; s_map_set_wraps := true;
+     s_array_ser_scalar := Copies; s_array_ser_items := Copies; s_array_ser_noitems := ReturnsInternal;
+     s_map_ser_items := Copies; s_regular_ser_list := Copies; s_regular_ser_map := Copies;
+     s_convert_dict := DeepCopies; s_convert_step := DeepCopies; s_code_required := Copies;
+     s_schema_required := Copies; s_schema_default := DeepCopies; s_trusted_array := RetainsArg |}.
+Definition nested_ty : aty := TTuple [TAny; TArray (Some (TMap (Some TAny)))].
+Definition nested_val : vshape := VTuple [VTuple [VList [VAtom]; VAtom]; VList [VDict [VTuple [VDict [VAtom]]]]].
+
+Example C19_intake_nonvacuous :
+  struct_gate_ok tables_ok = true /\ field_gates_ok tables_ok = true /\ sites_intake_ok sites_ok_example = true /\
+  shape_ok false nested_ty nested_val = true /\ mutable_reach nested_val = true /\
+  retains sites_ok_example tables_ok OwnPlain false nested_ty nested_val = true /\
+  retains sites_ok_example tables_ok OwnImmStruct false nested_ty nested_val = false /\
+  retains sites_ok_example tables_ok OwnImmField false nested_ty nested_val = false /\
+  struct_gate_ok tables_tuple_exempt = false /\
+  retains sites_ok_example tables_tuple_exempt OwnImmStruct false nested_ty nested_val = true /\
+  retains sites_ok_example tables_tuple_exempt OwnImmStruct false TAny (VTuple [VAtom; VAtom]) = false /\
+  typed_inside (TArray (Some (TTuple [TScalar true; TMap (Some (TScalar true))]))) = true /\
+  shape_ok false (TArray (Some (TTuple [TScalar true; TMap (Some (TScalar true))])))
+           (VList [VTuple [VAtom; VDict [VAtom; VAtom]]]) = true.
+Proof. vm_compute. repeat split. Qed.
